@@ -170,14 +170,20 @@ class Source:
             k += 1
         return limit
 
-    def region(self, name, first, last, within=None, ordinal=0, first_ordinal=0):
+    def region(self, name, first, last, within=None, ordinal=0, first_ordinal=0, until=None):
         """Text of the statements of fn `name` from the statement whose line
         starts with `first` through the statement whose line starts with `last`
-        (or through the end of the body when last == 'END')."""
+        (or through the end of the body when last == 'END'; or, with `until`,
+        up to but excluding the first later line that starts with `until`)."""
         _, o, c = self.find_fn(name, within, ordinal)
         body_lo, body_hi = o + 1, c
         a = self._find_line(first, body_lo, body_hi, first_ordinal)
-        if last == "END":
+        if until is not None:
+            b_end = self._find_line(until, a, body_hi, 0)
+            b_end = self.text.rfind("\n", 0, b_end) + 1
+            while b_end > a and self.text[b_end - 1] in " \t\n":
+                b_end -= 1
+        elif last == "END":
             b_end = body_hi
             # trim trailing whitespace
             while b_end > a and self.text[b_end - 1] in " \t\n":
